@@ -252,3 +252,25 @@ def run(body, args):
         LAST['exc'] = 'work budget exhausted (non-termination or super-linear work)'
     _report(args, exc)
     return False
+
+
+def to_single(x):
+    """nearest binary32 value (as a Python float), ties to even; inf when out of range"""
+    if SYM:
+        import z3
+        with NoTracing():
+            from crosshair.libimpl.builtinslib import PreciseIeeeSymbolicFloat
+            if isinstance(x, PreciseIeeeSymbolicFloat):
+                y = z3.fpFPToFP(z3.RNE(), x.var, z3.Float32())
+                return PreciseIeeeSymbolicFloat(z3.fpFPToFP(z3.RNE(), y, z3.Float64()))
+            x = realize(x)
+    import ctypes
+    return ctypes.c_float(x).value
+
+
+def same_sign(a, b):
+    """distinguishes -0.0 from 0.0"""
+    if SYM:
+        return (dbits(a) >= 2 ** 63) == (dbits(b) >= 2 ** 63)
+    import math
+    return math.copysign(1.0, a) == math.copysign(1.0, b)
